@@ -220,13 +220,18 @@ def model_apply(op, mp, vals):
     if k == 'derive_const':
         t = T()
         res = t.copy()
+        v = vals['v']
+        vv = v if isinstance(v, list) else [v]
         if not res.cols:
-            v = vals['v']
-            return 'table', MT([op['c']], [{op['c']: v}]), None
+            return 'table', MT([op['c']], [{op['c']: x} for x in vv]), None
+        if len(vv) == 1 and res.n != 1:
+            vv = vv * res.n
+        if len(vv) != res.n:
+            return 'error', ValueError
         if op['c'] not in res.cols:
             res.cols.append(op['c'])
-        for r in res.rows:
-            r[op['c']] = vals['v']
+        for r, x in zip(res.rows, vv):
+            r[op['c']] = x
         return 'table', res, None
     if k == 'apply':
         t = T()
@@ -287,7 +292,7 @@ def model_apply(op, mp, vals):
                 t.cols = [c]; t.rows = [{c: x} for x in vv]
             else:
                 if len(vv) != t.n:
-                    raise HarnessError('update with a wrong length is not generated')
+                    return 'error', ValueError
                 if c not in t.cols:
                     t.cols.append(c)
                 for r, x in zip(t.rows, vv):
@@ -481,7 +486,7 @@ def run_history(case, ctx):
         ctx.cls('op:' + k)
         if mres[0] == 'error':
             ok = status == 'exc' and isinstance(rres, mres[1])
-            mon = 'missized_assignment_rejected' if k in ('setitem', 'setcol_from') else 'bad_construction_rejected'
+            mon = 'missized_assignment_rejected' if k in ('setitem', 'setcol_from', 'update', 'derive_const') else 'bad_construction_rejected'
             if not ctx.check(mon, ok, lambda: 'step %d %s: model expects %s, library %s' % (step, op, mres[1].__name__, 'returned %r' % (rres,) if status == 'ok' else core.exc_str(rres))):
                 return
         elif status == 'exc':
@@ -628,6 +633,9 @@ def gen_history(rng, nops):
                 upd[c] = gen.cells(rng, n_) if (rng.random() < 0.6 or not m.cols) else gen.cell(rng)
             if not m.cols:
                 upd = {cs[0]: gen.cells(rng, n_)}
+            elif rng.random() < 0.25:
+                bad = rng.choice([x for x in (0, 2, 3, m.n + 1, m.n + 2) if x != m.n and x != 1])
+                upd = {cs[0]: gen.cells(rng, bad)}     # a single non-fitting column: must be rejected, table stays as it was
             op = {'op': 'update', 't': t, 'upd': upd, 'via': rng.choice(['update', 'attr'])}
         elif k == 'and' and m.cols:
             cs = gen.subset(rng, m.cols, 1) + free[:1]
@@ -673,7 +681,9 @@ def gen_history(rng, nops):
             if op['f']['fn'] == 'ident':
                 op['f']['args'] = args[:1]
         elif k == 'derive_const' and m.cols:
-            op = {'op': 'derive_const', 't': t, 'c': rng.choice(free[:2] + m.cols[:1]), 'v': gen.cell(rng), 'dst': dst}
+            r_ = rng.random()
+            v = gen.cell(rng) if r_ < 0.5 else gen.cells(rng, m.n) if r_ < 0.8 else gen.cells(rng, rng.choice([x for x in (0, 2, m.n + 1, m.n + 3) if x != m.n and x != 1]))
+            op = {'op': 'derive_const', 't': t, 'c': rng.choice(free[:2] + m.cols[:1]), 'v': v, 'dst': dst}
         elif k == 'apply' and m.cols:
             op = {'op': 'apply', 't': t, 'f': {'fn': 'cat', 'args': gen.subset(rng, m.cols, 1, 3)}}
         elif k == 'relabel' and m.cols:
